@@ -1,6 +1,9 @@
 package exec
 
-import "github.com/ChrisTrenkamp/xsel/store"
+import (
+	"github.com/ChrisTrenkamp/xsel/node"
+	"github.com/ChrisTrenkamp/xsel/store"
+)
 
 // ContextSettings allows you to add namespace mappings, create new functions,
 // and add variable bindings to your XPath query.
@@ -17,8 +20,34 @@ type exprContext struct {
 	result           Result
 	contextPosition  int
 	contextSize      int
+	principal        principalNodeType
 	builtinFunctions map[XmlName]Function
 	ContextSettings
+}
+
+// The node type that the name tests of a step select: attributes on the
+// attribute axis, namespaces on the namespace axis, elements on all others.
+type principalNodeType int
+
+const (
+	principalElement principalNodeType = iota
+	principalAttribute
+	principalNamespace
+)
+
+func (c *exprContext) isPrincipal(n node.Node) bool {
+	_, isAttribute := n.(node.Attribute)
+
+	switch c.principal {
+	case principalAttribute:
+		return isAttribute
+	case principalNamespace:
+		_, isNamespace := n.(node.Namespace)
+		return isNamespace
+	}
+
+	_, isNamed := n.(node.NamedNode)
+	return isNamed && !isAttribute
 }
 
 type Context interface {
@@ -45,6 +74,7 @@ func (e *exprContext) copy() exprContext {
 		result:           e.result,
 		contextPosition:  e.contextPosition,
 		contextSize:      e.contextSize,
+		principal:        e.principal,
 		builtinFunctions: builtinFunctions,
 		ContextSettings:  e.ContextSettings,
 	}
